@@ -230,6 +230,10 @@ func drawCase(t *rapid.T, avoid bool) Case {
 				op.Link.Mode = 1
 			}
 		}
+		if avoid && rec.IsKnown(sigMinMax) {
+			// switch of sigMinMax: no null n, so that _min/_max over a list relation never meets one
+			op.NNull = false
+		}
 		c.Ops = append(c.Ops, op)
 	}
 	nq := rapid.IntRange(2, 7).Draw(t, "nq")
